@@ -2,44 +2,16 @@
    element or subtotal twice and only indexes -n_subtotals .. n_elements-1. *)
 From Coq Require Import List Sorting Permutation ZArith String Bool Lia Arith QArith.
 From CC Require Import Base.XQ Base.SortX Spec.OrderSpec Model.Collator
-  Proofs.OrderCollate Proofs.OrderExplicit Proofs.OrderIds Proofs.OrderVisible Proofs.OrderSbv
+  Proofs.OrderCollate Proofs.OrderExplicit Proofs.OrderIds Proofs.OrderVisible Proofs.SbvDedup
+  Proofs.OrderSbv
   Model.Assemble Proofs.AssembleProofs.
 Import ListNotations.
 Local Close Scope Q_scope.
 Local Close Scope Z_scope.
 Local Open Scope nat_scope.
 
-(* --- generic ------------------------------------------------------------------------------ *)
-Lemma NoDup_map_of_nat (l : list nat) : NoDup l -> NoDup (map Z.of_nat l).
-Proof.
-  induction 1 as [|x t Hx Ht IH]; simpl; constructor; auto.
-  intros I. apply in_map_iff in I. destruct I as (y & E & Hy). apply Nat2Z.inj in E. subst. auto.
-Qed.
-
-Lemma NoDup_map_fst_of_nat {B} (l : list (nat * B)) :
-  NoDup (map fst l) -> NoDup (map (fun e : nat * B => Z.of_nat (fst e)) l).
-Proof.
-  intros N. apply NoDup_map_of_nat in N. rewrite map_map in N. exact N.
-Qed.
-
-Lemma NoDup_map_partition {A B} (f : A -> B) (p q : A -> bool) l :
-  (forall x, q x = negb (p x)) ->
-  NoDup (map f l) ->
-  NoDup (map f (filter p l) ++ map f (filter q l)).
-Proof.
-  intros Q. induction l as [|x t IH]; simpl; intros N; [constructor|].
-  inversion N as [|? ? Hx Ht]; subst. specialize (IH Ht).
-  assert (Hnot : ~ In (f x) (map f (filter p t) ++ map f (filter q t))).
-  { intros I. apply Hx. apply in_app_or in I.
-    destruct I as [I|I]; apply in_map_iff in I; destruct I as (y & E & Hy);
-      apply filter_In in Hy; rewrite <- E; apply in_map; apply Hy. }
-  rewrite (Q x). destruct (p x); simpl.
-  - constructor; assumption.
-  - eapply Permutation_NoDup; [apply Permutation_middle|]. constructor; assumption.
-Qed.
-
-Lemma fst_enumerate_nodup {A} (l : list A) : NoDup (map fst (enumerate l)).
-Proof. rewrite fst_enumerate. apply seq_NoDup. Qed.
+(* (the generic NoDup lemmas and the duplicate-freeness of the body / subtotal / fixed groups are in
+   Proofs/OrderSbv.v) *)
 
 (* --- anchored collators -------------------------------------------------------------------- *)
 Lemma collate_perm (desc : list bel) (floats : list flt) :
@@ -121,173 +93,58 @@ Proof.
 Qed.
 
 (* --- sort-by-value collator ------------------------------------------------------------------ *)
-(* the hypothesis the proof forces: no id of the dimension is named twice in fixed.top ++
-   fixed.bottom (ids of no element may repeat - they are ignored) *)
-Definition fixed_once (ids : list ident) (s : sortspec) : Prop :=
-  NoDup (filter (fun i => imem i ids) (s_top s ++ s_bottom s)).
+(* whatever the fixed lists name: the collator keeps the first mention of every index *)
+Theorem sbv_nodup d s vals svals empties : NoDup (sbv_display d s vals svals empties).
+Proof. apply sbv_display_nodup. Qed.
 
-Lemma fixed_idxs_app ids a b : fixed_idxs ids (a ++ b) = fixed_idxs ids a ++ fixed_idxs ids b.
-Proof. unfold fixed_idxs. apply flat_map_app. Qed.
-
-Lemma fixed_idxs_in ids listed k :
-  NoDup ids -> In k (fixed_idxs ids listed) ->
-  k < List.length ids /\ In (nth k ids INone) listed.
-Proof.
-  intros N. rewrite (fixed_listed ids listed N). rewrite in_flat_map. intros (i & Hi & H).
-  destruct (first_index i ids) as [k'|] eqn:E; [|destruct H].
-  destruct H as [<-|[]]. destruct (first_index_spec _ _ _ E) as [L Nk]. rewrite Nk. auto.
-Qed.
-
-Lemma fixed_idxs_nodup ids listed :
-  NoDup ids -> NoDup (filter (fun i => imem i ids) listed) -> NoDup (fixed_idxs ids listed).
-Proof.
-  intros N. induction listed as [|i r IH]; simpl; intros F; [constructor|].
-  unfold fixed_idxs in *. simpl. rewrite (idx_by_id_first ids i N).
-  destruct (imem i ids) eqn:M.
-  - inversion F as [|? ? Hi Hr]; subst.
-    destruct (first_index i ids) as [k|] eqn:E.
-    + simpl. constructor; [|apply IH; exact Hr].
-      intros I. destruct (fixed_idxs_in ids r k N I) as [_ J].
-      destruct (first_index_spec _ _ _ E) as [_ Nk]. rewrite Nk in J.
-      apply Hi. apply filter_In. split; [exact J|exact M].
-    + simpl. apply IH. exact Hr.
-  - assert (E : first_index i ids = None) by (apply first_index_none; apply imem_false; exact M).
-    rewrite E. simpl. apply IH. exact F.
-Qed.
-
-Lemma subtotal_idxs_nodup desc (svals : list sval) : NoDup (subtotal_idxs desc svals).
-Proof.
-  unfold subtotal_idxs, subtotal_keys, subtotal_nans.
-  set (c := combine svals (neg_idxs (List.length svals))).
-  assert (S : map snd c = neg_idxs (List.length svals))
-    by (apply map_snd_combine; rewrite neg_idxs_length; reflexivity).
-  assert (ND : NoDup (map snd c)) by (rewrite S; apply neg_idxs_nodup).
-  eapply Permutation_NoDup.
-  - apply Permutation_app_tail. apply Permutation_map. apply Permutation_sym.
-    apply (isort_perm (vkey_dir_leb desc)).
-  - apply (NoDup_map_partition snd (fun k : vkey => negb (sval_nan (fst k)))
-                                (fun k : vkey => sval_nan (fst k)) c); [|exact ND].
-    intros x. rewrite negb_involutive. reflexivity.
-Qed.
-
-Lemma body_idxs_nodup desc (vals : list sval) fixed : NoDup (body_idxs desc vals fixed).
-Proof.
-  unfold body_idxs, body_keys, body_nans.
-  set (f := fun kv : nat * sval => Z.of_nat (fst kv)).
-  set (l := filter (fun kv : nat * sval => negb (nmem (fst kv) fixed)) (enumerate vals)).
-  assert (ND : NoDup (map f l)).
-  { unfold f, l. apply NoDup_map_fst_of_nat.
-    apply NoDup_map_filter. apply fst_enumerate_nodup. }
-  assert (X := NoDup_map_partition f (fun kv : nat * sval => negb (sval_nan (snd kv)))
-                                  (fun kv : nat * sval => sval_nan (snd kv)) l
-                                  (fun x => eq_sym (negb_involutive _)) ND).
-  unfold l in X. rewrite !filter_filter in X.
-  eapply Permutation_NoDup; [|exact X].
-  apply Permutation_app_tail.
-  eapply Permutation_trans.
-  2:{ apply Permutation_map. apply Permutation_sym. apply (isort_perm (vkey_dir_leb desc)). }
-  rewrite map_map. unfold f. simpl. apply Permutation_refl.
-Qed.
-
-Lemma body_idxs_nonneg desc (vals : list sval) fixed z :
-  In z (body_idxs desc vals fixed) -> (0 <= z)%Z.
-Proof.
-  unfold body_idxs. intros H. apply in_app_or in H. destruct H as [H|H].
-  - apply sort_vkeys_in in H. unfold body_keys in H. rewrite map_map in H.
-    apply in_map_iff in H. destruct H as (x & E & _). simpl in E. lia.
-  - unfold body_nans in H. apply in_map_iff in H. destruct H as (x & E & _). lia.
-Qed.
-
-Lemma sbv_concat_perm ids s vals svals :
-  Permutation (List.concat (sbv_segments ids s vals svals))
-              (subtotal_idxs (s_desc s) svals
-               ++ map Z.of_nat (fixed_idxs ids (s_top s) ++ fixed_idxs ids (s_bottom s))
-               ++ body_idxs (s_desc s) vals (fixed_idxs ids (s_top s) ++ fixed_idxs ids (s_bottom s))).
-Proof.
-  unfold sbv_segments. cbv zeta. simpl. rewrite app_nil_r. rewrite map_app.
-  set (S := subtotal_idxs (s_desc s) svals).
-  set (T := map Z.of_nat (fixed_idxs ids (s_top s))).
-  set (Bt := map Z.of_nat (fixed_idxs ids (s_bottom s))).
-  set (Bd := body_idxs (s_desc s) vals _).
-  assert (P : Permutation (T ++ Bd ++ Bt) ((T ++ Bt) ++ Bd)).
-  { rewrite <- app_assoc. apply Permutation_app_head. apply Permutation_app_comm. }
-  destruct (s_desc s); simpl.
-  - rewrite app_nil_r. apply Permutation_app_head. exact P.
-  - eapply Permutation_trans.
-    + replace (T ++ Bd ++ Bt ++ S) with ((T ++ Bd ++ Bt) ++ S) by (rewrite <- !app_assoc; reflexivity).
-      apply Permutation_app_comm.
-    + apply Permutation_app_head. exact P.
-Qed.
-
-Theorem sbv_nodup d s vals svals empties :
-  NoDup (d_ids d) -> fixed_once (d_ids d) s ->
-  NoDup (sbv_display d s vals svals empties).
-Proof.
-  intros N F. unfold sbv_display, displayed. apply NoDup_filter'.
-  eapply Permutation_NoDup; [apply Permutation_sym, sbv_concat_perm|].
-  assert (NF : NoDup (fixed_idxs (d_ids d) (s_top s) ++ fixed_idxs (d_ids d) (s_bottom s))).
-  { rewrite <- fixed_idxs_app. apply fixed_idxs_nodup; assumption. }
-  apply NoDup_app_intro.
-  - apply subtotal_idxs_nodup.
-  - apply NoDup_app_intro.
-    + apply NoDup_map_of_nat. exact NF.
-    + apply body_idxs_nodup.
-    + intros z Hf Hb. apply in_map_iff in Hf. destruct Hf as (k & <- & Hk).
-      apply body_idxs_in in Hb. destruct Hb as [_ Hb]. contradiction.
-  - intros z Hs Ho. apply subtotal_idxs_in in Hs. apply in_app_or in Ho. destruct Ho as [Ho|Ho].
-    + apply in_map_iff in Ho. destruct Ho as (k & <- & _). lia.
-    + apply body_idxs_nonneg in Ho. lia.
-Qed.
-
-(* the hypothesis cannot be dropped: order.fixed = {top: [2, 2], bottom: [2]} on a dimension
-   with ids 1, 2, 3 lists the element with id 2 three times *)
+(* the former witness of finding C05-fixed-repeats: order.fixed = {top: [2, 2], bottom: [2]} on a
+   dimension with ids 1, 2, 3 listed the element with id 2 three times ([1; 1; 2; 0; 1]); it is now
+   shown once, where it is first mentioned (fixed top) *)
 Definition refuting_dim : dimension :=
   mkDim [mkElem (IInt 1) false DNone; mkElem (IInt 2) false DNone; mkElem (IInt 3) false DNone]
         false [] None [] false.
 Definition refuting_sort : sortspec := mkSort true [IInt 2; IInt 2] [IInt 2].
 Definition refuting_vals : list sval := [VNum (Fin 1); VNum (Fin 2); VNum (Fin 3)].
 
-Theorem sbv_nodup_refuted :
+Theorem sbv_nodup_former_witness :
   NoDup (d_ids refuting_dim) /\
   values_fit refuting_dim (ByValue refuting_sort (Some (refuting_vals, []))) /\
+  ~ fixed_once (d_ids refuting_dim) refuting_sort /\
+  sbv_plain refuting_dim refuting_sort refuting_vals [] [] = [1; 1; 2; 0; 1]%Z /\
   display_order refuting_dim (ByValue refuting_sort (Some (refuting_vals, []))) [] false
-  = Ok [1; 1; 2; 0; 1]%Z /\
-  ~ NoDup [1; 1; 2; 0; 1]%Z.
+  = Ok [1; 2; 0]%Z /\
+  NoDup [1; 2; 0]%Z.
 Proof.
-  split; [|split; [|split]].
+  split; [|split; [|split; [|split; [|split]]]].
   - repeat constructor; simpl; intuition discriminate.
   - split; reflexivity.
+  - unfold fixed_once. vm_compute. intros N. inversion N as [|? ? H _]. apply H. simpl. auto.
   - vm_compute. reflexivity.
-  - intros N. inversion N as [|? ? H _]. apply H. simpl. auto.
+  - vm_compute. reflexivity.
+  - repeat constructor; simpl; intuition discriminate.
 Qed.
 
 (* --- every order helper --------------------------------------------------------------------- *)
-Definition fixed_ok (d : dimension) (o : ordering) : Prop :=
-  match o with
-  | ByValue s (Some _) => fixed_once (d_ids d) s
-  | _ => True
-  end.
-
 Theorem helper_order_nodup d o empties order :
-  NoDup (d_ids d) -> fixed_ok d o -> helper_order d o empties = Ok order -> NoDup order.
+  NoDup (d_ids d) -> helper_order d o empties = Ok order -> NoDup order.
 Proof.
-  intros N F. destruct o as [k|s [[vals svals]|]]; simpl.
+  intros N. destruct o as [k|s [[vals svals]|]]; simpl.
   - apply anchored_nodup. exact N.
-  - intros E. inversion E; subst. apply sbv_nodup; assumption.
+  - intros E. inversion E; subst. apply sbv_nodup.
   - apply anchored_nodup. exact N.
 Qed.
 
 Theorem display_order_nodup d o empties psub order :
-  NoDup (d_ids d) -> values_fit d o -> fixed_ok d o ->
+  NoDup (d_ids d) -> values_fit d o ->
   display_order d o empties psub = Ok order ->
   NoDup order /\
   Forall (in_range (List.length (subtotals d)) (List.length (d_elems d))) order.
 Proof.
-  intros N V F H. split.
+  intros N V H. split.
   - unfold display_order, bind in H.
     destruct (helper_order d o empties) as [l|c] eqn:E; [|discriminate].
     inversion H; subst. clear H.
-    assert (NL := helper_order_nodup d o empties l N F E).
+    assert (NL := helper_order_nodup d o empties l N E).
     destruct psub; [apply NoDup_filter'|]; exact NL.
   - apply Forall_forall. intros z Hz. unfold in_range.
     destruct (Z.ltb z 0) eqn:Neg.
@@ -297,7 +154,7 @@ Proof.
       apply (display_visible_iff d o empties psub order (Z.to_nat z) N V H) in Hz. lia.
 Qed.
 
-(* payload and explicit orders: unconditionally *)
+(* payload and explicit orders (no value vectors to fit) *)
 Theorem anchored_order_nodup d k empties psub order :
   NoDup (d_ids d) ->
   display_order d (ByAnchor k) empties psub = Ok order ->
